@@ -41,6 +41,26 @@ impl paseto_core::encodings::Payload for Raw {
     }
 }
 
+/// A TYPED footer whose wire form is not unique: decoding drops trailing spaces, encoding writes the value
+/// without them (like a JSON footer, whose text may carry insignificant white space or members the type does not
+/// model).  What a token authenticates is the footer BYTES it carries, so "F" and "F " are different tokens even
+/// though both decode to the same typed footer.
+#[derive(Clone, Debug, PartialEq, Eq)]
+pub struct TrimFooter(pub Vec<u8>);
+impl paseto_core::encodings::Footer for TrimFooter {
+    fn encode(&self, mut writer: impl paseto_core::encodings::WriteBytes) -> Result<(), Box<dyn std::error::Error + Send + Sync>> {
+        writer.write(&self.0);
+        Ok(())
+    }
+    fn decode(footer: &[u8]) -> Result<Self, Box<dyn std::error::Error + Send + Sync>> {
+        let mut v = footer.to_vec();
+        while v.last() == Some(&b' ') {
+            v.pop();
+        }
+        Ok(TrimFooter(v))
+    }
+}
+
 /// The same with a non-empty `Payload::SUFFIX` ("x"): tokens read `v4x.local....`
 #[derive(Clone, Debug, PartialEq, Eq)]
 pub struct RawX(pub Vec<u8>);
